@@ -17,7 +17,7 @@ NK(k) == Len(k.ks)
 FieldsMatch(o, r) ==
   /\ o.k = "hdr" /\ o.n = r.cp /\ o.ver = r.ver /\ o.cmd = r.cmd
   /\ CASE r.mode \in {"inet", "inet6"} -> /\ o.fwd /\ o.sa = r.sa /\ o.da = r.da /\ o.sp = r.sp /\ o.dp = r.dp /\ o.tlvs = r.tlvs
-                                          /\ o.s4 = (r.mode = "inet") /\ o.d4 = (r.mode = "inet")
+                                          /\ o.s4 = IsMapped(r.sa) /\ o.d4 = IsMapped(r.da)
        [] r.mode = "unix" -> o.tlvs = r.tlvs
        [] r.mode \in {"none", "local"} -> ~o.fwd
 PrefixLaw(k) == \A j \in 1..NK(k) : Out(k, j).k \in {"need", "rej"} \/ Out(k, j) = Out(k, NK(k))
@@ -32,7 +32,7 @@ POk(k) ==
 ImplRejectAt(s, r) ==
   IF StartsWith(s, Magic2) THEN
        (IF s[13] \div 16 # 2 \/ s[13] % 16 > 1 THEN 13 ELSE IF s[14] \div 16 > 3 \/ s[14] % 16 > 2 THEN 14 ELSE r.cp)
-  ELSE IF StartsWith(s, Magic1) THEN (IF FirstCR(s, 6, 106) = 0 THEN 106 ELSE r.cp)
+  ELSE IF StartsWith(s, Magic1) THEN (IF FirstCR(s, 6, 106) = 0 THEN 106 ELSE IF FirstCR(s, 6, 106) = 6 THEN 6 ELSE r.cp)
   ELSE 12
 IOk(k) ==
   LET r == Decode(k.s) IN
